@@ -432,7 +432,7 @@ fn run_inner(ctx: &Ctx) -> Outcome {
         return out;
     }
     let depth = std::env::var("C51_DEPTH").ok().and_then(|s| s.parse().ok()).unwrap_or(ctx.tier.pick(5, 7));
-    let (st, v) = bfs::bfs_replay(Sys::new, depth, ctx.tier.pick(300_000, 3_000_000));
+    let (st, v) = bfs::bfs_replay(Sys::new, depth, ctx.tier.pick(300_000, 2_000_000));
     bfs::record(&mut out, &cfg, &st, &v);
     for (k, g) in [("refreshes_accepted", &G_REFRESH), ("valid_ttl_refused", &G_REFUSED_LIMIT), ("invalid_ttl_refused", &G_REFUSED_TTL), ("registrations_expired", &G_EXPIRED), ("discoveries_with_cookie_hiding_live_registration", &G_COOKIE_FILTERED), ("cookie_namespace_mismatch_answers", &G_MISMATCH)] {
         out.count(k, g.load(SeqCst));
